@@ -28,7 +28,7 @@ CLAIMS['C08'] = {
   'design_ref': '§4 C08',
 }
 CLAIMS['C03'] = {
-  'text': "Mechanisms a resumed run relies on, as contracts on verbatim bodies: colvarbias::can_accumulate_data is true exactly when the step is not the repeated first step of a segment (or step-zero data is requested); the moving-centre restraint schedule and work accumulation do nothing on the repeated step and depend on the absolute step only; the binary stream reads back every object and vector exactly as written (C11 lemmas).",
+  'text': "Mechanisms a resumed run relies on, as contracts on verbatim bodies: colvarbias::can_accumulate_data is true exactly when the step is not the repeated first step of a segment (or step-zero data is requested); the moving-centre restraint schedule and work accumulation do nothing on the repeated step and depend on the absolute step only; the binary stream reads back every object and vector exactly as written (C11 lemmas); reading a text state offers each block to the objects of its type in order until the matching one consumes it (so the second bias of a type is restored too); a restarted shared-ABF walker resets its 'already shared' reference grids whenever sharing is on.",
   'note': "Whole-run equality of two executions is not a contract of one call and is not decided; text state, metadynamics/ABF/histogram accumulators and k_moving are n/d here.",
   'design_ref': '§4 C03',
 }
@@ -37,7 +37,7 @@ CLAIMS['C07'] = {
   'note': "Components are stand-ins (uninterpreted total_force / Jacobian_derivative), at most 2 components; the analytic inverse gradients of each component type and calc_colvar_properties are n/d.",
   'design_ref': '§4 C07'}
 CLAIMS['C14'] = {
-  'text': "Contracts on the verbatim bodies of colvar_grid<size_t>::copy_grid, delta_grid and add_grid, closed by loop contracts for every grid length: each element is combined exactly once with the element of the same address (other, other - own, own + other), nothing else changes, and grids of different multiplicity or size are refused without change.",
+  'text': "Contracts on the verbatim bodies of colvar_grid<size_t>::copy_grid, delta_grid and add_grid, closed by loop contracts for every grid length: each element is combined exactly once with the element of the same address (other, other - own, own + other), nothing else changes, and grids of different multiplicity or size are refused without change. colvarbias_abf::read_state_data: after a complete restart state the shared-ABF reference grids are reset to the loaded grids and the last-sharing step to the current step whenever sharing is on (also with script-driven sharing, frequency 0), so data collected before the restart is not counted again. hill_stream_error: a hill record of a peer that is only partly on disk leaves the reader rewound to the start of that record and flagged failed.",
   'note': "Element type size_t (count grids); add_grid requires equal lengths from its caller (it checks only the multiplicity). n/d: replica_share message exchange, file-based metadynamics replicas, interleavings and restarts.",
   'design_ref': '§4 C14'}
 CLAIMS['C16'] = {
@@ -69,7 +69,7 @@ CLAIMS['C04'] = {
   'note': "Bounded (1-2 variables); grids, update_system_force, smoothing ramp and replica sharing are stubs; the tail of update() (output prefix, UI estimator, calc_energy), projected ABF, CZAR and the arithmetic of the running mean are n/d.",
   'design_ref': '§4 C04'}
 CLAIMS['C05'] = {
-  'text': "Deposition schedule of metadynamics as contracts on the head of colvarbias_meta::update_bias and on colvarbias::can_accumulate_data: in one call at most one hill is created, and exactly when the bias is history dependent, the step is not the repeated first step of a segment, and the absolute step is a multiple of newHillFrequency.",
+  'text': "Deposition schedule of metadynamics as contracts on the head of colvarbias_meta::update_bias and on colvarbias::can_accumulate_data: in one call at most one hill is created, and exactly when the bias is history dependent, the step is not the repeated first step of a segment, and the absolute step is a multiple of newHillFrequency. Boundary expansion (update_grid_params loop): the grids are re-allocated iff ANY expandable variable comes within the buffer of a non-hard boundary, each adjusted by exactly the missing points.",
   'note': "Hill frequency fixed to 10 in the schedule task (constant divisor); hill values, weights, well-tempered scaling, grids, rebinning and keepHills are n/d (Gaussian sums over exp are outside reach).",
   'design_ref': '§4 C05'}
 CLAIMS['C09'] = {
